@@ -7,7 +7,8 @@ index and inscription pass on) preserves the mid-block invariant `BMid`:
 * the flotsam saved for the coinbase points at its sats in the ranges queued for the coinbase,
   whose size is the running `reward`,
 * the pending null entry lists its inscriptions on their sats in (ranges stored under the null
-  outpoint) ++ (the block's lost ranges), the pending unbound entry lists unbound inscriptions only,
+  outpoint) ++ (the block's lost ranges), the pending unbound entry and the stored unbound row list
+  sat-less inscriptions only, every other row lists bound inscriptions only,
 * `lostSats` is the size of the ranges stored under the null outpoint.
 
 The block's first transaction (the coinbase, indexed last) turns `BMid` into `BEnd` (the part of
@@ -26,13 +27,29 @@ theorem RowsSat.mono {E E' : List InsEntry} {l : List (OutPoint × UtxoEntry)} (
 theorem RowsSat.sub {E : List InsEntry} {l l' : List (OutPoint × UtxoEntry)} (h : RowsSat E l)
     (hs : ∀ p ∈ l', p ∈ l) : RowsSat E l' := fun p hp => h p (hs p hp)
 
+/-- the UTXO table: the unbound pseudo-output lists sat-less inscriptions only, every other row
+(real outputs, the null pseudo-output) lists bound inscriptions on their sats -/
+@[reducible] def TblSat (E : List InsEntry) (l : List (OutPoint × UtxoEntry)) : Prop :=
+  ∀ p ∈ l, (p.1 ≠ OutPoint.unbound → EntSat E p.2) ∧ (p.1 = OutPoint.unbound → InsNone E p.2.ins)
+
+theorem TblSat.mono {E E' : List InsEntry} {l : List (OutPoint × UtxoEntry)} (h : TblSat E l) (hx : EntExt E E') :
+    TblSat E' l := fun p hp => ⟨fun hn => ((h p hp).1 hn).mono hx, fun he => ((h p hp).2 he).mono hx⟩
+
+theorem TblSat.sub {E : List InsEntry} {l l' : List (OutPoint × UtxoEntry)} (h : TblSat E l)
+    (hs : ∀ p ∈ l', p ∈ l) : TblSat E l' := fun p hp => h p (hs p hp)
+
+theorem ne_unbound_of_not_special {op : OutPoint} (h : op.isSpecial = false) : op ≠ OutPoint.unbound := by
+  intro hc
+  rw [hc] at h
+  exact absurd h (by decide)
+
 /-- what the block-end flush needs -/
 structure BEnd (NOld : Ranges) (bc : BlockCtx) : Prop where
-  tbl : RowsSat bc.st.entries bc.st.utxo
+  tbl : TblSat bc.st.entries bc.st.utxo
   cache : RowsSat bc.st.entries bc.cache
   cacheNS : ∀ p ∈ bc.cache, p.1.isSpecial = false
   nul : ∀ ne, bc.ins.nullEntry = some ne → InsSat bc.st.entries (NOld ++ bc.lostRanges) ne.ins
-  unb : ∀ ue, bc.ins.unboundEntry = some ue → InsSat bc.st.entries [] ue.ins
+  unb : ∀ ue, bc.ins.unboundEntry = some ue → InsNone bc.st.entries ue.ins
   nullAt : rangesAt bc.st.utxo OutPoint.null = NOld
 
 /-- the mid-block invariant (before the coinbase is indexed) -/
@@ -214,7 +231,7 @@ theorem indexTx_noncb_step (cfg : Cfg) (hs : cfg.indexSats = true) (blk : Block)
     rcases hrows p hp with h1 | h1 | h1
     · cases h1
     · exact hinv.cache _ h1
-    · exact hinv.tbl _ h1
+    · exact (hinv.tbl _ h1).1 (ne_unbound_of_not_special (hsp _ (hmemIn p hp)))
   have hls0 : LsInv (NOld ++ bc.lostRanges)
       { st := { bc1.st with sat2sp := setRare tx.txid bc1.st.sat2sp r.rare }, ctx := bc1.ins, outs := outs2 } := by
     refine ⟨?_, ?_, ?_⟩
@@ -223,7 +240,7 @@ theorem indexTx_noncb_step (cfg : Cfg) (hs : cfg.indexSats = true) (blk : Block)
       show InsSat bc1.st.entries _ _
       rw [hent1]; exact hinv.nul ne (by rw [← hins1]; exact hne)
     · intro ue hue
-      show InsSat bc1.st.entries _ _
+      show InsNone bc1.st.entries _
       rw [hent1]; exact hinv.unb ue (by rw [← hins1]; exact hue)
   obtain ⟨a, b, c, d, e⟩ := indexInscriptions_noncb_inv cfg hs blk.height blk.time tx inputs r _ ls'
     (NOld ++ bc.lostRanges) bc.coinbaseInputs hsats hii hncb hnn
@@ -241,13 +258,13 @@ theorem indexTx_noncb_step (cfg : Cfg) (hs : cfg.indexSats = true) (blk : Block)
     (by rw [hcache]; exact (hinv.cache.sub sub2).mono b')
     (by rw [hcache]; exact fun p hp => hinv.cacheNS p (sub2 p hp)) a.outs
   refine ⟨⟨⟨?_, ?_, cn, ?_, ?_, ?_⟩, ?_, ?_, ?_, ?_⟩, by show EntExt _ bc3.st.entries; rw [hst]; exact b'⟩
-  · show RowsSat bc3.st.entries bc3.st.utxo
+  · show TblSat bc3.st.entries bc3.st.utxo
     rw [hst, hutxo]; exact (hinv.tbl.sub sub1).mono b'
   · show RowsSat bc3.st.entries _
     rw [hst]; exact cr
   · show ∀ ne, bc3.ins.nullEntry = some ne → InsSat bc3.st.entries (NOld ++ bc3.lostRanges) ne.ins
     rw [hst, hins3, hlost, hte.lost]; exact a.nul
-  · show ∀ ue, bc3.ins.unboundEntry = some ue → InsSat bc3.st.entries [] ue.ins
+  · show ∀ ue, bc3.ins.unboundEntry = some ue → InsNone bc3.st.entries ue.ins
     rw [hst, hins3]; exact a.unb
   · show rangesAt bc3.st.utxo OutPoint.null = NOld
     rw [hst, hutxo]
@@ -297,13 +314,13 @@ theorem indexTx_cb_step (cfg : Cfg) (hs : cfg.indexSats = true) (blk : Block)
   obtain ⟨cr, cn⟩ := cacheIns_rows tx.txid h0 ls'.outs bc3.cache ls'.st.entries
     (by rw [hcache]; exact hinv.cache.mono b') (by rw [hcache]; exact hinv.cacheNS) a.outs
   refine ⟨⟨?_, ?_, cn, ?_, ?_, ?_⟩, by show EntExt _ bc3.st.entries; rw [hst]; exact b'⟩
-  · show RowsSat bc3.st.entries bc3.st.utxo
+  · show TblSat bc3.st.entries bc3.st.utxo
     rw [hst, hutxo]; exact hinv.tbl.mono b'
   · show RowsSat bc3.st.entries _
     rw [hst]; exact cr
   · show ∀ ne, bc3.ins.nullEntry = some ne → InsSat bc3.st.entries (NOld ++ bc3.lostRanges) ne.ins
     rw [hst, hins3, hlost, hinv.lostR, List.nil_append]; exact a.nul
-  · show ∀ ue, bc3.ins.unboundEntry = some ue → InsSat bc3.st.entries [] ue.ins
+  · show ∀ ue, bc3.ins.unboundEntry = some ue → InsNone bc3.st.entries ue.ins
     rw [hst, hins3]; exact a.unb
   · show rangesAt bc3.st.utxo OutPoint.null = NOld
     rw [hst, hutxo]; exact hinv.nullAt
